@@ -532,9 +532,11 @@ class EntityIdTlv(AbstractTlvBase):
 
     @classmethod
     def unpack(cls, data: bytes) -> EntityIdTlv:
+        tlv = CfdpTlv.unpack(data=data)
+        if tlv.tlv_type != cls.TLV_TYPE:
+            raise TlvTypeMissmatch(tlv.tlv_type, cls.TLV_TYPE)
         entity_id_tlv = cls.__empty()
-        entity_id_tlv.tlv = CfdpTlv.unpack(data=data)
-        entity_id_tlv.check_type(tlv_type=TlvType.ENTITY_ID)
+        entity_id_tlv.tlv = tlv
         return entity_id_tlv
 
     @classmethod
